@@ -13,7 +13,7 @@ ID = "C13"
 RULE = (
     "Values from C01's numeric domain with |x| < 10^15 plus exact ties at every place, powers of ten +- one unit, values that "
     "carry (999.995), +-0.0 and values that round to zero; formats through set_cell_formatting: number/percentage (places "
-    "0..10 or automatic, separator, 4 negative styles), currency (every code in the library's table, accounting on/off), "
+    "0..10 or automatic, separator, 4 negative styles), currency (every code in the library's table, accounting on/off under each of the four negative styles), "
     "scientific (places 0..10), base (2..36, places 0..8, minus sign / two's complement for 2, 8, 16), fraction (9 accuracies), "
     "rating (0..5, whole and fractional). One cell in six is first given another generated format, then the one under test (the last format decides). 150..400 (value, format) cells per document; formatted_value is read on the open document and after save+"
     "reopen (both must agree). Oracle (vf/numfmt.py): decoration stripped by notation, the text read as an exact Fraction P, "
@@ -50,8 +50,9 @@ def formats(draw, codes):
         kw["negative_style"] = draw(st.integers(0, 3))
         if kind == "currency":
             kw["currency_code"] = draw(st.sampled_from(codes) | st.sampled_from(["GBP", "USD", "EUR", "JPY"]))
-            if kw["negative_style"] == 0:
-                kw["use_accounting_style"] = draw(st.booleans())
+            # accounting layout under each of the four negative styles: with a style other than MINUS the library warns that the
+            # accounting layout overrides it, so the text is the accounting one (one pair of parentheses)
+            kw["use_accounting_style"] = draw(st.booleans())
     elif kind == "scientific":
         kw["decimal_places"] = draw(st.integers(0, 10))
     elif kind == "base":
